@@ -18,47 +18,58 @@ func rulePayload(p *Prog, r *Report) {
 	// Boolean: 1 for true, 0 for false
 	if fn := p.MustFunc(r, "ast", "(*BooleanNode).ToBytes"); fn != nil {
 		key := rule + ":ast.(*BooleanNode).ToBytes"
-		sites := elemSites(p, fn, defaultArgs(fn), map[string]Val{"p0.values": {K: KSlice, S: "p0.values", Len: -1}, "len(p0.variables)": int64Val(0)}, "p0.values")
-		if len(sites) != 1 {
-			r.unk(rule, key, p.Pos(fn.Pos()), "the element loop was not found")
-		} else {
-			got := map[bool]string{}
-			for _, b := range []bool{false, true} {
-				in := NewInterp(p)
-				in.PathBind["len(p0.variables)"] = int64Val(0)
-				in.PathBind["p0.values"] = Val{K: KSlice, S: "p0.values", Len: -1}
-				o1 := in.Run(fn, defaultArgs(fn), nil)
-				outer := o1.Frame.Vals()
-				in.ResetHeap()
-				bb := b
-				site := sites[0]
-				in.Bind = func(v ssa.Value, fr *frame) (Val, bool) {
-					if v == site {
-						return Val{K: KBool, B: bb, Dep: true}, true
-					}
-					return Val{}, false
-				}
-				var emitted []string
-				in.OnAppend = func(call *ssa.Call, a1 Val, elems []Val, fr *frame) {
-					if fr.fn == fn && inLoop(call.Block()) {
-						for _, e := range elems {
-							emitted = append(emitted, e.String())
-						}
-						if elems == nil {
-							emitted = append(emitted, "?")
-						}
-					}
-				}
-				in.RunOuter(fn, defaultArgs(fn), site.(ssa.Instruction).Block(), outer)
-				got[b] = strings.Join(uniq(emitted), ",")
-			}
-			if got[false] == "0" && got[true] == "1" {
-				r.ok(rule, key, p.Pos(fn.Pos()), "each element is emitted as 1 (true) or 0 (false)")
+		if d, decided, good := payloadByEvaluation(p, fn, "bool"); decided {
+			if good {
+				r.ok(rule, key, p.Pos(fn.Pos()), d)
 			} else {
-				r.bad(rule, key, p.Pos(fn.Pos()), fmt.Sprintf("a boolean is emitted as %q for false and %q for true; E5 requires 0 and 1", got[false], got[true]))
+				r.bad(rule, key, p.Pos(fn.Pos()), d)
+			}
+			goto binary
+		}
+		{
+			sites := elemSites(p, fn, defaultArgs(fn), map[string]Val{"p0.values": {K: KSlice, S: "p0.values", Len: -1}, "len(p0.variables)": int64Val(0)}, "p0.values")
+			if len(sites) != 1 {
+				r.unk(rule, key, p.Pos(fn.Pos()), "the element loop was not found")
+			} else {
+				got := map[bool]string{}
+				for _, b := range []bool{false, true} {
+					in := NewInterp(p)
+					in.PathBind["len(p0.variables)"] = int64Val(0)
+					in.PathBind["p0.values"] = Val{K: KSlice, S: "p0.values", Len: -1}
+					o1 := in.Run(fn, defaultArgs(fn), nil)
+					outer := o1.Frame.Vals()
+					in.ResetHeap()
+					bb := b
+					site := sites[0]
+					in.Bind = func(v ssa.Value, fr *frame) (Val, bool) {
+						if v == site {
+							return Val{K: KBool, B: bb, Dep: true}, true
+						}
+						return Val{}, false
+					}
+					var emitted []string
+					in.OnAppend = func(call *ssa.Call, a1 Val, elems []Val, fr *frame) {
+						if fr.fn == fn && inLoop(call.Block()) {
+							for _, e := range elems {
+								emitted = append(emitted, e.String())
+							}
+							if elems == nil {
+								emitted = append(emitted, "?")
+							}
+						}
+					}
+					in.RunOuter(fn, defaultArgs(fn), site.(ssa.Instruction).Block(), outer)
+					got[b] = strings.Join(uniq(emitted), ",")
+				}
+				if got[false] == "0" && got[true] == "1" {
+					r.ok(rule, key, p.Pos(fn.Pos()), "each element is emitted as 1 (true) or 0 (false)")
+				} else {
+					r.bad(rule, key, p.Pos(fn.Pos()), fmt.Sprintf("a boolean is emitted as %q for false and %q for true; E5 requires 0 and 1", got[false], got[true]))
+				}
 			}
 		}
 	}
+binary:
 	// Binary and ASCII: byte(element)
 	for _, c := range []struct{ typ, path, want string }{{"BinaryNode", "p0.values", `^byte\(v\)$`}, {"ASCIINode", "p0.value", `^byte\(v\)$`}} {
 		fn := p.MustFunc(r, "ast", "(*"+c.typ+").ToBytes")
@@ -66,6 +77,18 @@ func rulePayload(p *Prog, r *Report) {
 			continue
 		}
 		key := rule + ":ast.(*" + c.typ + ").ToBytes"
+		kind := "byte"
+		if c.typ == "ASCIINode" {
+			kind = "string"
+		}
+		if d, decided, good := payloadByEvaluation(p, fn, kind); decided {
+			if good {
+				r.ok(rule, key, p.Pos(fn.Pos()), d)
+			} else {
+				r.bad(rule, key, p.Pos(fn.Pos()), d)
+			}
+			continue
+		}
 		env := map[string]Val{"len(p0.variables)": int64Val(0), "p0.isValue": boolVal(true)}
 		var sites []ssa.Value
 		if c.typ == "ASCIINode" {
@@ -861,4 +884,115 @@ func regexPatterns(p *Prog, fn *ssa.Function) []string {
 		pats = append(pats, f.pat)
 	}
 	return pats
+}
+
+// payloadByEvaluation decides what a one-byte-per-element node appends after
+// its header by evaluating ToBytes on nodes of one to three elements: every
+// combination of booleans; symbolic elements for binary items (the payload
+// byte must be the term byte(element)); for ASCII items every single
+// character and some longer strings (the payload must be the string's bytes).
+// decided is false when the result's bytes are not determined.
+func payloadByEvaluation(p *Prog, fn *ssa.Function, kind string) (detail string, decided, good bool) {
+	var bad []string
+	run := func(setup func(in *Interp), n int) ([]Val, bool) {
+		in := symInterp(p)
+		in.PathBind["len(p0.variables)"] = int64Val(0)
+		in.MapKeys["p0.variables"] = nil
+		setup(in)
+		out := in.Run(fn, defaultArgs(fn), nil)
+		var full *Val
+		for _, rv := range out.Frame.ReturnVals() {
+			if rv[0].K == KSlice && rv[0].Len > 0 {
+				v := rv[0]
+				full = &v
+			}
+		}
+		if len(in.Stuck) > 0 || out.CanPanic || full == nil || full.Len < n {
+			return nil, false
+		}
+		var tail []Val
+		for i := full.Len - n; i < full.Len; i++ {
+			tail = append(tail, in.Elem(*full, i, typByte))
+		}
+		return tail, true
+	}
+	switch kind {
+	case "bool":
+		for n := 1; n <= 3; n++ {
+			for mask := 0; mask < 1<<n; mask++ {
+				m := mask
+				tail, ok := run(func(in *Interp) {
+					in.PathBind["p0.values"] = Val{K: KSlice, S: "p0.values", Len: n}
+					for i := 0; i < n; i++ {
+						in.PathBind[fmt.Sprintf("p0.values[%d]", i)] = boolVal(m>>i&1 == 1)
+					}
+				}, n)
+				if !ok {
+					return "", false, false
+				}
+				for i, e := range tail {
+					want := int64(m >> i & 1)
+					if e.K != KInt {
+						return "", false, false
+					}
+					if e.I.Int64() != want {
+						bad = append(bad, fmt.Sprintf("element %d of %d (%v) is emitted as %s; E5 requires %d", i, n, want == 1, e, want))
+					}
+				}
+			}
+		}
+		if len(bad) > 0 {
+			return strings.Join(firstN(uniq(bad), 3), "; "), true, false
+		}
+		return "evaluated on every combination of one to three booleans: each element is emitted, in order, as 1 (true) or 0 (false)", true, true
+	case "byte":
+		for n := 1; n <= 3; n++ {
+			tail, ok := run(func(in *Interp) { in.PathBind["p0.values"] = Val{K: KSlice, S: "p0.values", Len: n} }, n)
+			if !ok {
+				return "", false, false
+			}
+			for i, e := range tail {
+				want := fmt.Sprintf("byte(p0.values[%d])", i)
+				if e.K != KSym {
+					return "", false, false
+				}
+				if e.S != want {
+					bad = append(bad, fmt.Sprintf("element %d of %d is emitted as %s, expected %s", i, n, e, want))
+				}
+			}
+		}
+		if len(bad) > 0 {
+			return strings.Join(firstN(uniq(bad), 3), "; "), true, false
+		}
+		return "evaluated on one to three elements of arbitrary value: each element v is emitted, in order, as the single byte byte(v)", true, true
+	case "string":
+		var values []string
+		for c := 0; c < 128; c++ {
+			values = append(values, string(rune(c)))
+		}
+		values = append(values, "ab", "a\x00b", "\x7f~ ", "zyx")
+		for _, v := range values {
+			vv := v
+			tail, ok := run(func(in *Interp) {
+				in.PathBind["p0.isValue"] = boolVal(true)
+				in.PathBind["p0.value"] = strVal(vv)
+			}, len(vv))
+			if !ok {
+				return "", false, false
+			}
+			for i, e := range tail {
+				if e.K != KInt {
+					return "", false, false
+				}
+				if e.I.Int64() != int64(vv[i]) {
+					bad = append(bad, fmt.Sprintf("character %d of %q is emitted as %s", i, vv, e))
+				}
+			}
+		}
+		if len(bad) > 0 {
+			return strings.Join(firstN(uniq(bad), 3), "; "), true, false
+		}
+		return "evaluated on every ASCII character and some longer strings: the payload is the string's bytes in order", true, true
+	}
+	return "", false, false
 }
